@@ -73,6 +73,16 @@ def meta_histories():
         ('va', 'e2', [['ChangeField', 'Item', 'a', {'max_length': 30},
                        None, None]]),
     ]))
+    # raw SQL with percent signs and a %s look-alike (no parameters: the
+    # text must reach the database untouched)
+    out.append(('raw-sql-percent', v0, [
+        ('va', 'e1', [['SQLRaw', 'percent',
+                       ["UPDATE va_item SET a = '100%% wool' WHERE a LIKE "
+                        "'%x';",
+                        "UPDATE va_item SET a = 'is %s' WHERE a = '';"]]]),
+        ('va', 'e2', [['AddField', 'Item', 'n1', 'Int', {'null': True},
+                       None]]),
+    ]))
     return out
 
 
@@ -108,6 +118,14 @@ def cases_for(tier):
             out.append((name, v0, steps, i, k))
     for name, v0, steps in two_app_histories():
         out.append((name, v0, steps, 0, 2))
+    # several models removed from one app at once (the hint lists one
+    # DeleteModel per model: their order must not depend on hashing)
+    vdel = P(A('va', [M('Item', [F('a', 'Char', max_length=20)])] + [
+        M(n, [F('x', 'Int', null=True)])
+        for n in ('Alpha', 'Bravo', 'Charlie', 'Delta')]))
+    out.append(('delete-models', vdel, [
+        ('va', 'e1', [['DeleteModel', n] for n in
+                      ('Alpha', 'Bravo', 'Charlie', 'Delta')])], 0, 1))
     hs = c04.gen_histories(c03.narrow_start(), 2, 'lite', c04.KINDS)
     stride = 4 if tier == 'quick' else 1
     for n, steps in enumerate(hs):
@@ -211,6 +229,38 @@ def check_preview_vs_execute(case, stats, add):
             'statements-differ'
         add('C14|preview-differs-from-execution|%s|%s' % (kind, desc),
             replay, {'preview': a[:8], 'executed': b[:8]})
+    # the same on the level of effects: the previewed text, run verbatim on
+    # the same snapshot by a plain sqlite3 cursor, must leave the database
+    # that `evolve --execute` left
+    skip = c03.SKIP_TABLES
+    after_execute = (O.schema_dump('default', skip=skip),
+                     O.row_dump('default', skip=skip))
+    B.restore(image, 'default')
+    from django.db import connections
+    conn = connections['default']
+    conn.ensure_connection()
+    raw = conn.connection
+    try:
+        for l in lines:
+            raw.execute(l)
+        raw.commit()
+        after_preview = (O.schema_dump('default', skip=skip),
+                         O.row_dump('default', skip=skip))
+    except Exception as e:
+        after_preview = ('preview text does not run', str(e)[:200])
+        try:
+            raw.rollback()
+        except Exception:
+            pass
+    stats['effect_comparisons'] = stats.get('effect_comparisons', 0) + 1
+    if after_preview != after_execute:
+        what = 'schema' if after_preview[0] != after_execute[0] else 'rows'
+        if after_preview[0] == 'preview text does not run':
+            what = 'preview-text-does-not-run'
+        add('C14|preview-run-verbatim-leaves-a-different-database|%s|%s' % (
+            what, desc), replay,
+            {'preview': str(after_preview)[:300],
+             'execute': str(after_execute)[:300]})
     return lines
 
 
